@@ -284,10 +284,19 @@ def run_calc(net, kind, kw, extra=None):
         return pp.runpp_3ph(net, **kw)
     if kind == "calc_sc":
         import pandapower.shortcircuit as sc
+        form = kw.pop("bus_form", "list")
         if "bus_k" in kw:
             ks = kw.pop("bus_k")
-            kw["bus"] = sorted({pick(net.bus.index.tolist(), k) for k in ks})
+            bus = sorted({pick(net.bus.index.tolist(), k) for k in ks})
+            import numpy as _np
+            import pandas as _pd
+            kw["bus"] = _np.array(bus) if form == "array" else _pd.Index(bus) if form == "index" else \
+                int(bus[0]) if form == "int" else bus
+        if kw.get("use_pre_fault_voltage"):
+            # (needs the line end temperature only for case "min"; pre-fault voltages come from the result tables)
+            kw["case"] = "max"
         return sc.calc_sc(net, **kw)
+
     if kind == "estimate":
         from pandapower.estimation import estimate
         return estimate(net, **kw)
